@@ -22,6 +22,8 @@ func main() {
 		cmdKeys(args)
 	case "chain":
 		cmdChain(args)
+	case "streamfn":
+		cmdStreamFn(args)
 	case "denom":
 		cmdDenom(args)
 	default:
